@@ -9,6 +9,7 @@ import (
 	"time"
 
 	"github.com/jrhy/mast/persist/file"
+	s3persist "github.com/jrhy/mast/persist/s3"
 
 	"github.com/jrhy/mast"
 	"pgregory.net/rapid"
@@ -46,7 +47,7 @@ func genC11(t *rapid.T, tier string) C11Case {
 		Keys: []string{core.KLK, core.KLK, core.KInt, core.KString, core.KUint64, core.KStruct, core.KStruct, core.KBytes},
 		BFs:  []uint{2, 2, 3, 4, 16},
 	})}
-	c.Env = rapid.SampledFrom([]string{"frozen", "frozen", "frozen", "real", "real", "file", "isolation"}).Draw(t, "env")
+	c.Env = rapid.SampledFrom([]string{"frozen", "frozen", "frozen", "real", "real", "file", "s3", "isolation"}).Draw(t, "env")
 	pool := len(c.Cfg.Pool())
 	c.Base = append(core.GenFill(t, pool, pool), core.GenProgram(t, core.OpWeights{core.OpInsertNew: 5, core.OpDelete: 5, core.OpPersist: 3}, 12, 1)...)
 	n := rapid.IntRange(2, 8).Draw(t, "nworkers")
@@ -114,6 +115,16 @@ func runC11(c C11Case, o *run.Obs) error {
 		for name, b := range w.Store.Snapshot() {
 			if err := realStore.Store(core.Ctx, name, b); err != nil {
 				return fmt.Errorf("harness: seeding the file store: %w", err)
+			}
+		}
+	case "s3":
+		// the S3 backend over an in-memory client, one store object shared by all goroutines
+		sp := s3persist.NewPersist(env.NewMiniS3(), "https://s3.example", "bucket", "nodes/")
+		realStore = &sp
+		realCache = mast.NewNodeCache([]int{256, 8}[len(c.Workers)%2])
+		for name, b := range w.Store.Snapshot() {
+			if err := realStore.Store(core.Ctx, name, b); err != nil {
+				return fmt.Errorf("harness: seeding the S3 store: %w", err)
 			}
 		}
 	case "real":
